@@ -112,6 +112,8 @@ type interp struct {
 	results []types.Object // named results
 	done    bool
 	steps   int
+	decls   map[string]*ast.FuncDecl // callee short name -> declaration, interpreted in place when no hook applies
+	depth   int
 }
 
 type interpPanic struct{ tag string }
@@ -121,7 +123,11 @@ func (it *interp) fail(format string, a ...any) { panic(interpErr{fmt.Sprintf(fo
 
 // runFunc interprets fd with the given argument values (by parameter order, receiver first if any).
 func runFunc(info *types.Info, fd *ast.FuncDecl, args []*val, hooks map[string]hookFn) (out *outcome) {
-	it := &interp{info: info, env: map[types.Object]*val{}, hooks: hooks, out: &outcome{}}
+	return runFuncEx(info, fd, args, hooks, nil, 0)
+}
+
+func runFuncEx(info *types.Info, fd *ast.FuncDecl, args []*val, hooks map[string]hookFn, decls map[string]*ast.FuncDecl, depth int) (out *outcome) {
+	it := &interp{info: info, env: map[types.Object]*val{}, hooks: hooks, out: &outcome{}, decls: decls, depth: depth}
 	out = it.out
 	defer func() {
 		if r := recover(); r != nil {
@@ -514,6 +520,9 @@ func (it *interp) expr(e ast.Expr) *val {
 		}
 		return ivOpaque(objName(usedObj(it.info, x)))
 	case *ast.UnaryExpr:
+		if x.Op == token.AND {
+			return ivOpaque("&" + exprStr(x.X))
+		}
 		v := it.expr(x.X)
 		switch x.Op {
 		case token.NOT:
@@ -683,6 +692,26 @@ func (it *interp) call(c *ast.CallExpr) *val {
 		if v, ok := h(it, c, args); ok {
 			return v
 		}
+	}
+	if fd, ok := it.decls[name]; ok && it.depth < 6 {
+		sub := runFuncEx(it.info, fd, args, it.hooks, it.decls, it.depth+1)
+		it.out.Calls = append(it.out.Calls, sub.Calls...)
+		if sub.ArithCond {
+			it.out.ArithCond = true
+		}
+		if sub.Err != "" {
+			it.fail("in %s: %s", name, sub.Err)
+		}
+		if sub.Panicked {
+			panic(interpPanic{sub.PanicTag})
+		}
+		switch len(sub.Results) {
+		case 0:
+			return ivOpaque("void")
+		case 1:
+			return sub.Results[0]
+		}
+		return &val{k: vTuple, tup: sub.Results}
 	}
 	if h, ok := it.hooks["*"]; ok {
 		if v, ok := h(it, c, args); ok {
